@@ -34,7 +34,8 @@ GROUPS = [
     ['', '-', ',', ' AND ', ' ', '  ', 'AND', ' AND', 'AND '],         # separator-like
     ['a', 'A', 'a ', ' a', 'é', 'e\u0301', 'E\u0301', 'É'],              # case / blanks / unicode normalisation variants
     ['0', '00', '01', '10', '1.0', '1e0', '1', '+1', 'None', 'nan'],   # numeric spellings
-    ['a', 'a\x00', 'a\x00\x00', '', '\x00', '\x00a', 'a\x00b'],          # NUL characters (fixed-width string buffers pad with them)
+    ['a', 'a\x00', 'a\x00\x00', '', '\x00', '\x00a', 'a\x00b'],
+    ['shoes', 'red\x1fsale', 'shoes\x1fred', 'sale', '', '\x1f', '\x1e', 'a\x1eb', 'a\tb', '\t', 'a\nb', '\x1fa', 'a\x1f'],   # control separators (US, RS, TAB, LF)          # NUL characters (fixed-width string buffers pad with them)
     # digit strings of length >= 10: a decimal length prefix WITHOUT terminator is ambiguous here
     # ('1' + '2' + '12' + '012345678917' == '12' + '120123456789' + '1' + '7')
     ['2', '012345678917', '120123456789', '7', '1', '01234567891', '20123456789', '17'],
@@ -53,6 +54,11 @@ def case_strategy(draw):
     if group is GROUPS[-1] and nrows >= 2 and draw(st.booleans()):
         cols[0][0], cols[1][0] = '2', '012345678917'
         cols[0][1], cols[1][1] = '120123456789', '7'
+    if any('\x1f' in v for v in group) and nrows >= 2 and draw(st.booleans()):
+        # two different tuples that a separator-joined encoding confuses when the separator occurs inside a value
+        sep = draw(st.sampled_from(['\x1f', '\x1e', '\t']))
+        cols[0][0], cols[1][0] = 'shoes', 'red' + sep + 'sale'
+        cols[0][1], cols[1][1] = 'shoes' + sep + 'red', 'sale'
     label = draw(st.lists(st.sampled_from(['0', '1']), min_size=nrows, max_size=nrows))
     order = draw(st.integers(2, min(4, k)))
     ncomb = math.comb(k, order)
@@ -165,11 +171,36 @@ def oracle(case, rec):
 def wide_case(draw):
     """Production-size batch: two id-like columns whose joint values are all distinct. Any digest narrower than the stated
     64 bits collides here with near certainty (32 bits: P(no collision) < 1e-4 at 3*10^5 rows)."""
+    if draw(st.integers(0, 2)) == 0:
+        # order 4 over four id columns with ~10^4 values each: the tuple SPACE exceeds 2^53 although the frame is small
+        return {'order4': {'card': draw(st.integers(9800, 10400)), 'seed': draw(st.integers(0, 2**32 - 1))}}
     return {'n': draw(st.integers(300_000, 420_000)), 'seed': draw(st.integers(0, 2**32 - 1)), 'a_card': draw(st.sampled_from([600, 1000, 5000]))}
 
 
 def oracle_wide(case, rec):
     import numpy as np
+    if 'order4' in case:
+        g = case['order4']
+        card = int(g['card'])
+        rng = np.random.Generator(np.random.PCG64(int(g['seed'])))
+        ids = ['%05d' % i for i in range(card)]
+        rows = [(ids[i], ids[i], ids[i], ids[i]) for i in range(card)]
+        top = ids[-1]
+        rows += [(top, top, top, ids[j]) for j in range(0, 6)] + [(top, top, ids[j], top) for j in range(0, 3)]   # neighbours at high codes
+        order_ = rng.permutation(len(rows)).tolist()
+        rows = [rows[i] for i in order_]
+        df = pd.DataFrame(rows, columns=['a', 'b', 'c', 'd'])
+        df['label'] = ['0', '1'] * (len(df) // 2) + ['0'] * (len(df) % 2)
+        args = stubs.make_args(interaction_order=4, combination_number_upper_bound=2**15, heuristic='MI-numba-randomized')
+        stubs.reset_globals()
+        out = cr.compute_combined_features(df, args, stubs.PBar())
+        nd, nt_ = int(out['a AND b AND c AND d'].nunique()), len(set(rows))
+        rec.nt(True, key=case)
+        rec.cls('order4-wide-space')
+        if nd != nt_:
+            raise Violation(f'{nt_} distinct (a,b,c,d) tuples over {card} ids per column but {nd} distinct interaction values',
+                            kind='C10/wide-digest')
+        return
     n, a_card = int(case['n']), int(case['a_card'])
     rng = np.random.Generator(np.random.PCG64(int(case['seed'])))
     idx = rng.permutation(n)
@@ -194,4 +225,4 @@ ORACLES['C10/wide-digest'] = oracle_wide
 
 def run(ctx):
     drive(ctx, [Clause('C10/interaction', case_strategy, oracle, quick=1200, thorough=40000, quick_shards=8),
-                Clause('C10/wide-digest', wide_case, oracle_wide, quick=4, thorough=64, quick_shards=4, thorough_shards=16)])
+                Clause('C10/wide-digest', wide_case, oracle_wide, quick=6, thorough=96, quick_shards=6, thorough_shards=16)])
